@@ -170,6 +170,20 @@ func collect(cur protoreflect.Message, path Path, depth int, out *[]Deviation) {
 				ts.Set(nf, protoreflect.ValueOfInt32(int32(ts.Get(nf).Int())+1))
 			})
 			add(fd, "clear", "dev", func(m protoreflect.Message) { m.Clear(fd) })
+			// corners of the value range: Go's zero time (the smallest valid timestamp), the largest valid one, the
+			// Unix epoch as an empty-but-present message, one second before the epoch
+			for _, ext := range []struct {
+				name  string
+				s     int64
+				nanos int32
+			}{{"set-go-zero-time", -62135596800, 0}, {"set-max", 253402300799, 999999999}, {"set-epoch-empty-message", 0, 0}, {"set-minus-1s", -1, 0}} {
+				ext := ext
+				add(fd, ext.name, "dev", func(m protoreflect.Message) {
+					ts := m.Mutable(fd).Message()
+					ts.Set(ts.Descriptor().Fields().ByName("seconds"), protoreflect.ValueOfInt64(ext.s))
+					ts.Set(ts.Descriptor().Fields().ByName("nanos"), protoreflect.ValueOfInt32(ext.nanos))
+				})
+			}
 			{
 				// +200ms / +500ms / +999ms: content changes iff the second changes (dates are compared to the second)
 				ts := cur.Get(fd).Message()
